@@ -115,7 +115,46 @@ func Semantic(j *job.Job, s *job.Sink) {
 		for _, m := range regexp.MustCompile(`import \S+ \{ prefix (\S+); \}`).FindAllStringSubmatch(t, -1) {
 			impPfx = append(impPfx, m[1])
 		}
-		switch r.Intn(14) {
+		switch r.Intn(15) {
+		case 14:
+			// a range that the range of the typedef it restricts does not admit: the error is about
+			// this range statement, not about the typedef's (a seeded change added the position of
+			// the typedef's range to the message). Only typedefs whose name is defined once in the
+			// whole set, so that the reference cannot be shadowed.
+			gap := map[string]string{"0..100|200..300": "150", "0|2|4..4294967294": "1", "-128..-1": "0", "-128..-100|-3|7..127": "0", "1..10": "11"}
+			var cands [][2]string
+			for _, n := range names {
+				for _, m := range regexp.MustCompile(`typedef (t\d+) \{\s+type u?int\d+ \{\s+range "([^"]+)";`).FindAllStringSubmatch(texts[n], -1) {
+					defs := 0
+					for _, n2 := range names {
+						defs += strings.Count(texts[n2], "typedef "+m[1]+" {")
+					}
+					if gap[m[2]] != "" && defs == 1 {
+						cands = append(cands, [2]string{m[1], gap[m[2]]})
+					}
+				}
+			}
+			if len(cands) > 0 {
+				cd := cands[r.Intn(len(cands))]
+				var files []string
+				re := regexp.MustCompile(`type (\S+:)?` + cd[0] + `;`)
+				for _, n := range names {
+					if re.MatchString(texts[n]) {
+						files = append(files, n)
+					}
+				}
+				if len(files) > 0 {
+					fn = files[r.Intn(len(files))]
+					t = texts[fn]
+					locs := re.FindAllStringIndex(t, -1)
+					loc := locs[r.Intn(len(locs))]
+					old := t[loc[0]:loc[1]]
+					nw := strings.TrimSuffix(old, ";") + " { range \"" + cd[1] + "\"; }"
+					t = t[:loc[0]] + nw + t[loc[1]:]
+					desig = loc[0] + strings.Index(nw, "range")
+					fault, want = "range outside the range of the typedef", []string{"range"}
+				}
+			}
 		case 13:
 			// a bad type inside a deviate statement of a deviating module added to the set
 			res := &schema.Resolver{Mods: g.Mods}
@@ -279,6 +318,10 @@ func Semantic(j *job.Job, s *job.Sink) {
 					if kw == w && m[1] == fn && (desigPos == "" || desigPos == m[2]+":"+m[3]) {
 						hit = true
 					}
+				}
+				if named && len(errs) == 1 && desigPos != "" && (m[1] != fn || desigPos != m[2]+":"+m[3]) {
+					// (and a second position of the right kind elsewhere is not it either)
+					s.Violation(c, j.CaseID(c), "C16.semantic", "position-names-another-statement", fmt.Sprintf("%s: the error %q names the %s statement at %s, the faulty one is at %s:%s", fault, e.Error(), kw, m[0], fn, desigPos), cs, map[string]any{"fault": fault})
 				}
 				if !named && len(errs) == 1 {
 					// the one fault of the set is a statement of the kinds in want and this is
